@@ -210,15 +210,17 @@ Proof.
       apply aff_at_compat. cbn. ring.
 Qed.
 
+Lemma levels_ok_length : forall olds news iolds inews, levels_ok olds news iolds inews -> length olds = length news.
+Proof. induction 1; cbn; auto. Qed.
+
 Lemma required_increment_sound : forall b_old b_new olds news iolds inews fs inc,
   levels_ok olds news iolds inews ->
   required_increment_from (b_new, news) (b_old, olds) fs = Ok inc ->
   aff_at b_old fs iolds + inc == aff_at b_new fs inews.
 Proof.
   intros b_old b_new olds news iolds inews fs inc Hl H. unfold required_increment_from in H. cbn [fst snd] in H.
-  destruct (Nat.eqb (length news) (length olds)) eqn:E1; cbn in H; [|discriminate].
   destruct (Nat.eqb (length news) (length fs)) eqn:E2; cbn in H; [|discriminate].
-  apply Nat.eqb_eq in E1, E2.
+  apply Nat.eqb_eq in E2. pose proof (levels_ok_length _ _ _ _ Hl) as E1.
   rewrite (req_inc_loop_sound olds news iolds inews Hl fs (b_new - b_old) inc b_old); auto; [|lia].
   apply aff_at_compat. ring.
 Qed.
@@ -264,10 +266,10 @@ Lemma repaired_zero_factor_witness :
   exists h t, pipeline 200 1 wit_zero = Ok (h, t) /\ plays h (fst (staircase wit_zero)) = true.
 Proof. eexists; eexists. split; vm_compute; reflexivity. Qed.
 
-Lemma compile_refuted_key_depth :
-  src_wf 2 wit_depth = true /\ guard_C17_zero_factor wit_depth = true /\
-  guard_C17_repetition_entry_state wit_depth = true /\ forall fuel, pipeline fuel 2 wit_depth = Err EAssert.
-Proof. repeat split; try (vm_compute; reflexivity). Qed.
+(* the witness of the former finding `dep-key-shared-across-depths` (AssertionError) plays its staircase since the repair *)
+Lemma repaired_key_depth_witness :
+  exists h t, pipeline 200 2 wit_depth = Ok (h, t) /\ plays h (fst (staircase wit_depth)) = true.
+Proof. eexists; eexists. split; vm_compute; reflexivity. Qed.
 
 Lemma statement_nonvacuous :
   src_wf 2 wit_good = true /\ guard_C17_zero_factor wit_good = true /\ guard_C17_repetition_entry_state wit_good = true /\
